@@ -567,6 +567,21 @@ class TransformationInstructionsGenerator:
           "Tensor %s can not be both quantized and unquantized"
           % instructions.tensor_name
       )
+    # A tensor is quantized in place once: all the ops asking for it have to
+    # agree on the parameters (e.g. a weight that is also a model output, or a
+    # constant read as a weight by one op and as an activation by another).
+    quantize_tensor_params = [
+        instruction.parameters
+        for instruction in instructions.instructions
+        if instruction.transformation
+        == qtyping.QuantTransformation.QUANTIZE_TENSOR
+    ]
+    for parameters in quantize_tensor_params[1:]:
+      if parameters != quantize_tensor_params[0]:
+        raise ValueError(
+            "Tensor %s can not be quantized with different parameters by the"
+            " ops using it" % instructions.tensor_name
+        )
     if is_operator_emulated and len(instructions.instructions) > 1:
       raise ValueError(
           "Tensor %s : op replacement transformation can not be combined with"
